@@ -19,7 +19,7 @@ EXPLANATION = (
     'operations never graft the operand\'s sub-tries by reference; (f) the '
     'dict-to-list density test is two sided.  The round-trip and set-algebra '
     'laws over all keys are value-level and not decided.')
-FLOORS = {'C10.a': 1, 'C10.b': 2, 'C10.c': 1, 'C10.d': 1, 'C10.e': 1, 'C10.f': 1}
+FLOORS = {'C10.a': 1, 'C10.b': 2, 'C10.c': 1, 'C10.d': 1, 'C10.e': 1, 'C10.f': 1, 'C10.g': 2}
 FILES = ['pyglove/core/utils/value_location.py', 'pyglove/core/utils/hierarchical.py',
          'pyglove/core/symbolic/base.py']
 VL = 'pyglove.core.utils.value_location.'
@@ -399,6 +399,77 @@ def rule_f(ctx):
          '; '.join(problems))
 
 
+def rule_g(ctx):
+  """Every path that traversal reports can be looked up again: in
+  KeyPath._query an int key is a *position* only in a sequence (and then it is
+  range-checked on both sides, so an absent position is a KeyError like any
+  absent key, never an IndexError), and a *key* in a mapping."""
+  idx = ctx.index
+  f = idx.func(VL + 'KeyPath._query')
+  g = C.cfg_of(f.node)
+  prm = [p for p in A.param_names(f.node) if p != 'self']
+  SRC = prm[1]
+  # the local holding the key of this level: assigned from self.keys[...] / self._keys[...]
+  keyl = {nm for st in ast.walk(f.node) if isinstance(st, ast.Assign) and isinstance(st.value, ast.Subscript)
+          and A.unparse(st.value.value) in ('self.keys', 'self._keys') for nm in A.assigned_names(st.targets[0])}
+  if len(keyl) != 1:
+    raise AnalysisError(f'KeyPath._query: key local not found ({sorted(keyl)})')
+  KEY = sorted(keyl)[0]
+  # positional tests: comparisons that relate the key to len(src) / 0 (chains are split into pairs)
+  LEN = f'len({SRC})'
+  def pairs(k):
+    return [(A.unparse(l), A.unparse(r)) for l, op, r in A.compare_parts(k.ast)
+            if isinstance(op, (ast.Lt, ast.LtE, ast.Gt, ast.GtE))]
+  def is_upper(l, r):
+    return {l, r} in ({KEY, LEN}, {KEY, f'{LEN} - 1'})
+  def is_lower(l, r):
+    return {l, r} in ({KEY, '0'}, {KEY, f'-{LEN}'}, {f'{KEY} + {LEN}', '0'}, {f'{LEN} + {KEY}', '0'})
+  pos_tests = [k for k in g.nodes if k.kind == 'test' and any(is_upper(l, r) or is_lower(l, r) for l, r in pairs(k))]
+  problems = []
+  if not pos_tests:
+    problems.append('no positional range test on the key')
+  else:
+    has_upper = any(is_upper(l, r) for k in pos_tests for l, r in pairs(k))
+    has_lower = any(is_lower(l, r) for k in pos_tests for l, r in pairs(k))
+    if not has_upper or not has_lower:
+      problems.append(f'positional read guarded by {[A.unparse(k.ast) for k in pos_tests]}: one side of the range is '
+                      f'missing, so an absent position raises IndexError instead of KeyError (get()/exists() do not catch it)')
+  ctx.ob('C10.g', f.fq + '#position-range', not problems,
+         'a positional lookup is range-checked on both sides: an absent position is reported like an absent key',
+         f.loc, '; '.join(problems))
+  # the positional branch is not taken for mappings
+  int_tests = [k for k in g.nodes if k.kind == 'test' and isinstance(k.ast, ast.Call) and A.call_name(k.ast) == 'isinstance'
+               and len(k.ast.args) == 2 and A.unparse(k.ast.args[0]) == KEY and A.unparse(k.ast.args[1]) == 'int']
+  map_tests = [k for k in g.nodes if k.kind == 'test' and (
+      (isinstance(k.ast, ast.Call) and A.call_name(k.ast) == 'isinstance' and len(k.ast.args) == 2
+       and A.unparse(k.ast.args[0]) == SRC and any(w in A.unparse(k.ast.args[1]) for w in ('Mapping', 'dict')))
+      or (isinstance(k.ast, ast.Call) and A.call_name(k.ast) == 'hasattr' and len(k.ast.args) == 2
+          and A.unparse(k.ast.args[0]) == SRC and A.const_str(k.ast.args[1]) in ('keys', 'items')))]
+  problems = []
+  if not int_tests:
+    problems.append('no int-key branch')
+  elif pos_tests:
+    # block the "is a mapping" outcome... i.e. assume src IS a mapping: the positional test must be unreachable
+    blocked = set()
+    for k in map_tests:
+      for m, lab in k.succ:
+        if lab == 'false':
+          blocked.add((k.id, m.id, lab))
+    # plain containers only: the symbolic branch (sym_hasattr) resolves keys itself
+    sym = [k for k in g.nodes if k.kind == 'test' and 'sym_hasattr' in A.unparse(k.ast) and 'hasattr(' in A.unparse(k.ast)]
+    for k in sym:
+      for m, lab in k.succ:
+        if lab == 'true':
+          blocked.add((k.id, m.id, lab))
+    seen, _ = g.reach(g.entry, blocked_edges=blocked, follow_exc=False)
+    if any(k.id in seen for k in pos_tests):
+      problems.append('an int key of a plain mapping is looked up by position (`key < len(src)`): the path `[3]` that '
+                      'traverse reports for {3: x} does not resolve')
+  ctx.ob('C10.g', f.fq + '#mapping-int-key', not problems,
+         'an int key is a position in a sequence and a key in a mapping, so every path reported by traversal resolves',
+         f.loc, '; '.join(problems))
+
+
 def run(ctx):
   ctx.consult(*FILES)
   rule_a(ctx)
@@ -407,4 +478,5 @@ def run(ctx):
   rule_d(ctx)
   rule_e(ctx)
   rule_f(ctx)
+  rule_g(ctx)
   ctx.assume('round-trip over all key strings, KeyPathSet algebra and flatten/canonicalize inverse laws are value-level')
